@@ -80,7 +80,7 @@ const maxZeroReads = 64
 
 func (t *tape) Read(b []byte) {
 	t.reads++
-	if t.over {
+	if t.over || len(b) == 0 {
 		t.zeroReads++
 		if t.zeroReads > maxZeroReads {
 			panic(livelock{})
